@@ -291,6 +291,24 @@ func prepareScanNodeFilterForTypeJoin(
 				parent.filter = filter.Merge(parent.filter, parentFilter)
 			}
 		}
+
+		// The id of the related document is a stored field on the primary side of the relation only. On
+		// the secondary side it is the join that fills it in: a condition on it holds after the join, the
+		// scan would compare a value that is not there yet.
+		relFieldDef, ok := parent.collection.Definition().GetFieldByName(subType.Name)
+		relIDName := subType.Name + request.RelatedObjectID
+		if ok && !relFieldDef.IsPrimaryRelation && len(parent.documentMapping.IndexesByName[relIDName]) > 0 {
+			relIDField := mapper.Field{Index: parent.documentMapping.FirstIndexOfName(relIDName), Name: relIDName}
+			var relIDFilter *mapper.Filter
+			scan.filter, relIDFilter = filter.SplitByFields(scan.filter, relIDField)
+			if relIDFilter != nil {
+				if parent.filter == nil {
+					parent.filter = relIDFilter
+				} else {
+					parent.filter = filter.Merge(parent.filter, relIDFilter)
+				}
+			}
+		}
 	}
 }
 
